@@ -246,7 +246,7 @@ def check_attempt_arithmetic(att, pe_mode, where):
                 continue
             r = 1.0 - rejected_mass.get(g, 0.0)
             if not comps:
-                if r >= 1e-8 and not (p == 0.0):
+                if r >= 1e-8 and not (p == 0.0) and not pe_mode:
                     raise Bad("ad-no-draw", "%s: AD head %s (p=%r, remaining %r) decided without a draw" % (where, c["id"], p, r))
                 rejected_mass[g] = rejected_mass.get(g, 0.0) + p
                 continue
@@ -416,6 +416,8 @@ def explore(case, seed, n, res, stats, tier):
                 raise Bad("no-probability", "%s: with_probability output lacks the probability line" % cfg)
             printed = float(m.group(1))
             prod = check_attempt_arithmetic(att, pe, "%s str" % cfg)
+            if pe:
+                continue  # with propagation, choices forced by the evidence are not drawn: which factor they contribute is not stated
             if abs(printed - prod) > 1e-6 * max(prod, 1e-12) + 1e-12:
                 raise Bad("printed-probability", "%s: printed probability %r, product of the choices made %r" % (cfg, printed, prod))
             stats["printed_checked"] = stats.get("printed_checked", 0) + 1
